@@ -296,5 +296,8 @@ package astnormalization
 //@   ghost var g_w *astvisitor.Walker = nil
 //@   at call extractVariablesDefaultValue: ghost g_w = arg0
 //@   at call inputCoercionForList: assert {defaults.are.in.the.variables.before.lists.are.coerced} g_w != nil && arg0 == g_w
+//@   ghost var g_wi *astvisitor.Walker = nil
+//@   at call injectInputFieldDefaults: ghost g_wi = arg0
+//@   at call inputCoercionForList: assert {input.field.defaults.are.in.the.variables.before.lists.are.coerced} g_wi != nil && arg0 == g_wi
 //@   modifies *, count(*)
 //@   safety none
